@@ -62,3 +62,21 @@ def new_interp(repo: Repo):
     T = AtomTable()
     ip = Interp(repo, T)
     return T, ip
+
+
+def options_model(repo: Repo, T, **overrides) -> Obj:
+    """SolverOptions with every dataclass field bound to a symbol of the same name."""
+    c = repo.cls("tdgl.solver.options", "SolverOptions")
+    attrs = {}
+    for st in c.node.body:
+        if isinstance(st, ast.AnnAssign) and isinstance(st.target, ast.Name):
+            nm = st.target.id
+            ann = ast.unparse(st.annotation)
+            if ann == "bool":
+                attrs[nm] = False
+            elif "str" in ann:
+                attrs[nm] = None
+            else:
+                attrs[nm] = T.real(nm)
+    attrs.update(overrides)
+    return Obj(c, attrs, label="options")
